@@ -23,6 +23,10 @@ K("c16_pel_remove_ab", "cg", ["C16"], tier="quick", timeout=1200,
   desc="PendingEntryList::remove_entry (XACK core): Some(entry) iff the ID was pending (unknown / already acknowledged IDs count nothing); exactly that ID leaves; counts and bounds agree",
   encodes=["PendingEntryList::remove_entry", "PendingEntryList::update_bounds"], bounds="2 pending IDs owned by a and b; symbolic ID; unwind 5",
   stubs=VEC + NOW, assumptions=[PRE, LIGHT])
+K("c16_pel_remove_aa_unsorted", "cg", ["C16"], tier="quick", timeout=1800, mem_gb=28,  # measured: out of memory at 14 GB, 345 s at 30 GB
+  desc="remove_entry when both pending IDs belong to ONE consumer whose index lists them in arrival order (greater ID first: read, then claim / re-delivery of a smaller ID): exactly the requested ID leaves both representations",
+  encodes=["PendingEntryList::remove_entry", "PendingEntryList::update_bounds"], bounds="2 pending IDs owned by a, per-consumer list [greater, smaller]; symbolic ID; unwind 5",
+  stubs=VEC + NOW, assumptions=[PRE, LIGHT])
 K("c16_pel_transfer_ab", "cg", ["C16"], tier="quick", timeout=1200,
   desc="PendingEntryList::transfer_ownership (XCLAIM core): a pending ID moves to the claimer (own owner, other consumer, new consumer), its delivery counter + 1, nothing else changes; an unknown ID changes nothing",
   encodes=["PendingEntryList::transfer_ownership"], bounds="2 pending IDs owned by a and b; symbolic ID + consumer; unwind 5",
